@@ -825,9 +825,9 @@ def history_cases(draw):
 def suites(tier):
     return [
         Suite("direct", check_direct, strategy=direct_cases(),
-              examples={"quick": 340, "thorough": 20000}),
+              examples={"quick": 340, "thorough": 12000}),
         Suite("histories", check_history, strategy=history_cases(),
-              examples={"quick": 75, "thorough": 4000}),
+              examples={"quick": 75, "thorough": 2500}),
         Suite("binned", check_direct, strategy=binned_cases(),
-              examples={"quick": 8, "thorough": 250}),
+              examples={"quick": 8, "thorough": 150}),
     ]
